@@ -892,6 +892,8 @@ func (fr *Frame) execRange(i *ssa.Range) {
 		name := fmt.Sprintf("$vis|%s|%s", fr.key, i.Name())
 		fr.rangeVis[i] = name
 		vc.setHeap(fr.st, name, arrSort(mh.ks, SBool), sx("(as const "+arrSort(mh.ks, SBool)+")", "false"))
+		vc.setHeap(fr.st, name+"#count", SInt, "0")
+		fr.rangeLen[i] = vc.heap(fr.st, mh.ln, mh.lnS)
 		fr.guardMapAccess(i.X, false, i.Pos())
 	}
 	fr.set(i, &Val{T: "0", S: SInt, Typ: i.Type()})
@@ -927,6 +929,13 @@ func (fr *Frame) execNext(i *ssa.Next) {
 	v := fr.mkVal(vc.define("next.v", mh.vs, fr.mapGet(fr.st, m.T, mh, k.T)), mh.vt)
 	vc.assume(fr.reach, imp(okv.T, fr.wf(v.T, mh.vt)))
 	vc.setHeap(fr.st, visName, visS, ite(okv.T, store(vis, k.T, "true"), vis))
+	cnt := vc.heap(fr.st, visName+"#count", SInt)
+	vc.assume(fr.reach, sx(">=", cnt, "0"))
+	if fr.rangeLen[rng] == vc.heap(fr.st, mh.ln, mh.lnS) {
+		// the map was not resized since the range started: exactly len(m) keys are visited
+		vc.assume(fr.reach, and(imp(okv.T, sx("<", cnt, fr.mapLen(fr.st, m.T, mh))), imp(not(okv.T), eq(cnt, fr.mapLen(fr.st, m.T, mh)))))
+	}
+	vc.setHeap(fr.st, visName+"#count", SInt, ite(okv.T, sx("+", cnt, "1"), cnt))
 	fr.set(i, &Val{S: "Tuple", Typ: i.Type(), Tup: []*Val{okv, k, v}})
 	fr.onRangeNext(rng, i, okv, k, v)
 }
@@ -1007,6 +1016,14 @@ func (fr *Frame) execGo(i *ssa.Go) {
 	callee := c.StaticCallee()
 	if callee == nil {
 		return
+	}
+	{
+		bind := map[string]*Val{}
+		for k, a := range c.Args {
+			bind[fmt.Sprintf("arg%d", k)] = fr.val(a)
+		}
+		fr.anchorAsserts("go", callee.String(), i.Pos(), bind)
+		fr.ghostAfter("go", callee.String(), bind)
 	}
 	fc := fr.vc.eng.contractOf(callee)
 	if fc == nil || len(fc.Requires) == 0 {
